@@ -38,6 +38,10 @@ fn blocks(rep: &Replica) -> Vec<String> {
 
 fn main() {
     let path = std::env::args().nth(1).expect("replay file");
+    if path == "c20dbg" {
+        c20dbg();
+        return;
+    }
     let doc: serde_json::Value = serde_json::from_slice(&std::fs::read(&path).unwrap()).unwrap();
     if doc["property"] == "C07" {
         c07_debug(&path);
@@ -109,5 +113,31 @@ pub fn c07_debug(path: &str) {
         println!("emitter blocks {:?}", blocks(&w.reps[0]));
         println!("emitter dump {}", w.reps[0].dump().short());
         println!("follower dump {}", f.dump().short());
+    }
+}
+
+fn c20dbg() {
+    use yrs::{Doc, Options, OffsetKind, Text, Map, GetString, Quotable, Transact, Out, WeakRef, TextRef};
+    use yrs::branch::BranchPtr;
+    use std::ops::Bound;
+    for kind in [OffsetKind::Bytes, OffsetKind::Utf16] {
+        let doc = Doc::with_options(Options { client_id: yrs::block::ClientID::new(2), offset_kind: kind, ..Default::default() });
+        let text = doc.get_or_insert_text("text");
+        let map = doc.get_or_insert_map("map");
+        text.insert(&mut doc.transact_mut(), 0, "\u{1F302}\u{1F303}\u{1F304}");
+        {
+            let mut txn = doc.transact_mut();
+            let q = if kind == OffsetKind::Bytes { text.quote(&txn, (Bound::Excluded(0u32), Bound::Included(4u32))).unwrap() } else { text.quote(&txn, (Bound::Excluded(1u32), Bound::Included(3u32))).unwrap() };
+            map.insert(&mut txn, "q", q);
+        }
+        println!("text {:?}", text.get_string(&doc.transact()));
+        for it in yrs::verif_hooks::branch_items(&BranchPtr::from(AsRef::<yrs::branch::Branch>::as_ref(&text))) {
+            println!("   {:?} len {} linked {} {:?}", it.id, it.len, it.linked, it.text);
+        }
+        let txn = doc.transact();
+        if let Some(Out::YWeakLink(w)) = map.get(&txn, "q") {
+            let t: WeakRef<TextRef> = WeakRef::from(w);
+            println!("quoted {:?}", t.get_string(&txn));
+        }
     }
 }
